@@ -18,6 +18,7 @@ package idl
 
 //@ ghost gpos int
 //@ ghost gname int
+//@ ghost gkw string
 //@ ghost gone int
 //@ ghost gtwo int
 //@ ghost cstart [int]int
@@ -208,7 +209,7 @@ package idl
 
 //@ func (*parser).readIDL {C05 C06 | safety: C09}
 //@   requires [wf] wf(p)
-//@   modifies p.position, p.lineStart, p.lastComment, gpos, cstart, gone, gtwo, gname
+//@   modifies p.position, p.lineStart, p.lastComment, gpos, cstart, gone, gtwo, gname, gkw
 //@   ensures [nonnil C05 C06 C09] result1 == nil ==> result0 != nil && fresh(result0)
 //@   ensures [eof C06] result1 == nil ==> p.position >= len(p.input)
 //@   ensures [members C05] result1 == nil ==> len(result0.Members) == len(result0.Aliases) + len(result0.Methods) + len(result0.Errors)
@@ -224,13 +225,16 @@ package idl
 //@   assert [app-error C05 C06] at call(append)#5 : arg0 == idl.Errors
 //@   loop 1 invariant [wf] wf1(p) && idl != nil
 //@   loop 1 invariant [members C05] len(idl.Members) == len(idl.Aliases) + len(idl.Methods) + len(idl.Errors)
+//@   ghostset at call(readInterfaceName)#1 : gkw = "type"
+//@   ghostset at call(readKeyword)#2 : gkw = res0
+//@   loop 1 invariant [keyword C06] gkw == "type" || gkw == "method" || gkw == "error"
 //@   loop 1 invariant [inA C06] inA(idl, members)
 //@   loop 1 invariant [inM C06] inM(idl, members)
 //@   loop 1 invariant [inE C06] inE(idl, members)
 //@   loop 1 decreases len(p.input) - p.position
 
 //@ func New {C05 C06 | safety: C09}
-//@   modifies gpos, cstart, gone, gtwo, gname
+//@   modifies gpos, cstart, gone, gtwo, gname, gkw
 //@   ensures [notree C06] result1 != nil ==> result0 == nil
 //@   ensures [desc C05] result1 == nil ==> result0 != nil && result0.Description == description
 //@   ensures [methods C06] result1 == nil ==> len(result0.Methods) >= 1
